@@ -275,6 +275,9 @@ def cmd_run(a):
             continue
         reported.append((path, cls, mv, len(cases)))
 
+    if a.dump_digests:
+        with open(a.dump_digests, "w") as fh:
+            json.dump({str(k): v for k, v in sorted(agg["digests"].items())}, fh)
     wall = time.monotonic() - t_start
     n_viol = len(reported)
     for fid, (cnt, i, f) in sorted(known_hits.items()):
@@ -357,6 +360,7 @@ def main(argv=None):
     r.add_argument("--runs", type=int, default=0)
     r.add_argument("--jobs", type=int, default=0)
     r.add_argument("--budget", type=float, default=0)
+    r.add_argument("--dump-digests", default="")
     p = sub.add_parser("replay")
     p.add_argument("file")
     d = sub.add_parser("digest")
